@@ -50,6 +50,7 @@ def moveOK : Bool :=
   C31.prepareDirectoriesArgs == ["TmpDir:true", "OutDir:false"] &&
   before C31.moveOutputCalls "Equal" "RemoveAll" && before C31.moveOutputCalls "RemoveAll" "Rename" &&
   C31.moveOutputRename == "os.Rename(param2, param3)" &&
+  C31.moveOutputKeepCond == "bytes.Equal(local, local)" &&      -- equal hash ⇒ the existing file stays, unconditionally
   !C31.moveOutputCalls.contains "WriteFile" && !C31.moveOutputCalls.contains "Create"
 
 /-- The test step is bracketed in the same way by the per-run test lock. -/
